@@ -160,6 +160,36 @@ def run(ctx):
     if wres.violated != "RoundTrip":
         raise common.MachineryError("witness failed: Splitter=py does not violate RoundTrip")
     ctx.notes.append("witness: str.splitlines as splitter violates RoundTrip after %d states" % wres.distinct)
+    # order and completeness across ping timeouts (ASGI, virtual time): pauses longer than the ping interval between events
+    import asyncio
+    from .. import vloop
+    import baize.asgi as A
+
+    async def timed(gaps, ping):
+        body = []
+
+        async def gen():
+            for i, gp in enumerate(gaps, 1):
+                await asyncio.sleep(gp)
+                yield {"id": str(i), "data": "e%d\nx" % i}
+
+        async def receive():
+            await asyncio.Event().wait()
+
+        async def send(m):
+            if m["type"] == "http.response.body":
+                body.append(m.get("body", b""))
+        await A.SendEventResponse(gen(), ping_interval=ping)({"type": "http", "method": "GET", "path": "/", "headers": []}, receive, send)
+        return b"".join(body)
+    for gaps, ping in (([0, 5, 0, 7, 1], 2), ([3, 3, 3], 1), ([0, 0, 9, 0], 4), ([1, 2, 3, 4], 3)):
+        raw = vloop.run(timed(gaps, ping))
+        got = parse_stream(raw.decode("utf-8"))
+        ctx.count()
+        want = [{"data": "e%d\nx" % i, "event": "", "id": str(i), "retry": None} for i in range(1, len(gaps) + 1)]
+        if got != want or b": ping" not in raw:
+            ctx.violation({"asgi_event_gaps": gaps, "ping_interval": ping}, want, {"decoded": got},
+                          "events yielded after a keep-alive ping are lost, duplicated or out of order")
+        ctx.nontriv(("timed", tuple(gaps), ping))
     # per character: every code point as one-character data comes back unchanged
     from baize.responses import build_bytes_from_sse
     cps = range(0x110000) if ctx.tier == "thorough" else itertools.chain(range(0x3100), range(0xD7F0, 0xE010), range(0xFFF0, 0x10010), range(0x1F600, 0x1F610))
